@@ -1,9 +1,35 @@
 import CogentModel.Model.IndelMap
 import CogentModel.Spec.Gapped
-/-! # C08 — property theorems (gapped-coordinate maps agree with the gapped string) -/
-namespace CogentModel.C08
-open CogentModel.IndelMap
+import CogentModel.Proofs.IndelMapInv
+/-! # C08 — property theorems (gapped-coordinate maps agree with the gapped string)
 
-theorem placeholder_len_empty (n : Int) : len (emptyMap n) = n := by simp [len, emptyMap]
+`abs m : List (Option Nat)` is the gapped string (column ↦ sequence index or gap) a map stands
+for; `WF` is the representation invariant (gap positions strictly increasing and inside the
+parent, cumulative lengths strictly increasing and positive). -/
+namespace CogentModel.C08
+open CogentModel.IndelMap CogentModel.Gapped
+
+/-- The map built from any gapped string (`parse_out_gaps`) satisfies the representation invariant. -/
+theorem fromGapped_wf (s : List Bool) : WF (fromGapped s) := fromGapped_wf' s
+
+example : fromGapped [false, true, true, false, true] = ⟨[1, 2], [2, 3], 2⟩ := by decide
+example : WF ⟨[1, 2], [2, 3], 2⟩ := by decide
+
+/-- The map built from a gapped string describes exactly that string: column by column the same
+gaps, and the residues numbered 0, 1, 2, … (all layouts: leading, trailing, adjacent, all-gap, no-gap). -/
+theorem abs_fromGapped (s : List Bool) : abs (fromGapped s) = ofPattern s := abs_fromGapped' s
+
+example : abs (fromGapped [true, false, true, true, false]) = [none, some 0, none, none, some 1] := by decide
+
+/-- `len(map)` is the number of columns of the gapped string it stands for (any well-formed map). -/
+theorem len_eq (m : IMap) (h : WF m) : ((abs m).length : Int) = len m := len_eq' m h
+
+example : WF ⟨[0, 2], [1, 4], 3⟩ ∧ len ⟨[0, 2], [1, 4], 3⟩ = 7 := by decide
+
+/-- `len` of the map of a string is the length of the string. -/
+theorem fromGapped_len (s : List Bool) : len (fromGapped s) = s.length := by
+  rw [← len_eq _ (fromGapped_wf s), abs_fromGapped, ofPattern, ofPatternFrom_length]
+
+example : len (fromGapped [true, false, true]) = 3 := by decide
 
 end CogentModel.C08
